@@ -43,8 +43,9 @@ Definition check_build (c : build_case) : list string :=
      | d :: _ =>
          tag_if (negb (match multi_arch_date c01_multiarch_fold (b_date0 c) (b_arch_created c) with
                        | Some m => Z.eqb m d | None => false end)) "mismatch:index-date-differs-from-model" ++
-         tag_if (negb (forallb (fun a => Z.leb a d) (b_arch_created c) &&
-                       existsb (Z.eqb d) (b_date0 c :: b_arch_created c))) "viol:index-date-is-not-the-latest-architecture-date"
+         (* the validator asks only what the property does: the date comes from the configuration or from
+            a package (through an architecture's date), not from anywhere else (the clock) *)
+         tag_if (negb (existsb (Z.eqb d) (b_date0 c :: b_arch_created c))) "viol:index-date-is-neither-configured-nor-an-architecture-date"
      end) ++
     match differing (b_ref c) (b_got c) with
     | [] => []
